@@ -248,12 +248,18 @@ def structure_items(repo):
     items = []
     fi = repo.func(f"{LS}.get_all_references")
     src = ast.unparse(fi.node)
+    from pyvc import shape
+    sfi = shape.of(repo, f"{LS}.get_all_references")
+    line_loop = next((n for n in ast.walk(sfi) if isinstance(n, ast.For) and ast.unparse(n.iter) == "enumerate(file_obj.contents_split)"), None)
     checks = {
-        "ensures.width": "file_refs.append([i, match.start(1), match.end(1)])" in src,
-        "ensures.same_line": "for i, line in enumerate(file_obj.contents_split)" in src
-                             and "self.get_definition(file_obj, i, match.start(1) + 1)" in src,
-        "ensures.no_comment": "line = file_obj.strip_comment(line)" in src and "for match in NAME_REGEX.finditer(line)" in src
-                              and src.index("line = file_obj.strip_comment(line)") < src.index("for match in NAME_REGEX.finditer(line)"),
+        "ensures.width": shape.has(sfi, "file_refs.append([i, match.start(1), match.end(1)])"),
+        # the line index handed to get_definition is the index of the line the match was found on
+        "ensures.same_line": line_loop is not None and isinstance(line_loop.target, ast.Tuple) and len(line_loop.target.elts) == 2
+                             and shape.has(line_loop, f"self.get_definition(file_obj, {ast.unparse(line_loop.target.elts[0])}, match.start(1) + 1)",
+                                           fixed=(ast.unparse(line_loop.target.elts[0]),)),
+        "ensures.no_comment": shape.has(sfi, "line = file_obj.strip_comment(line)")
+                              and any(isinstance(n, ast.For) and ast.unparse(n.iter) == "NAME_REGEX.finditer(line)" for n in ast.walk(sfi))
+                              and shape.before(sfi, "file_obj.strip_comment(line)", "NAME_REGEX.finditer(line)"),
         "ensures.skip_pp_lines": any(isinstance(n, ast.If) and ast.unparse(n.test) == "line == '' or line[0] == '#'"
                                      and isinstance(n.body[0], ast.Continue) for n in ast.walk(fi.node)),
     }
@@ -289,6 +295,32 @@ PROGRAMS = {
                "  subroutine t()\n    v = 2\n  end subroutine t\nend module m\n",
                {"v@1": [(1, 13), (8, 4)], "v@4": [(4, 15), (5, 4)]}),
 }
+
+
+def _occ(text, name, lines):
+    import re
+    out = []
+    for ln, line in enumerate(text.split("\n")):
+        if ln in lines:
+            out += [(ln, m.start()) for m in re.finditer(rf"(?<![\w$]){re.escape(name)}(?![\w$])", line.split("!")[0])]
+    return out
+
+
+# a function without RESULT clause: its name on the FUNCTION and END FUNCTION statements and at the call sites is the
+# function, inside the body it is the result variable
+_FN = ("module shapes\n  implicit none\ncontains\n  real function area(w, h)\n    real :: w, h\n    area = w * h\n"
+       "    if (area < 0) area = -area\n  end function area\n  function twice(n)\n    integer :: n, twice\n    twice = 2 * n\n"
+       "  END FUNCTION twice\n  subroutine use_it()\n    real :: x\n    x = area(1.0, 2.0) + area(2.0, 3.0) + twice(1)\n"
+       "  end subroutine use_it\nend module shapes\n")
+PROGRAMS["function_result"] = (_FN, {"area@fn": _occ(_FN, "area", {3, 7, 14}), "area@res": _occ(_FN, "area", {5, 6}),
+                                     "twice@fn": _occ(_FN, "twice", {8, 11, 14}), "twice@res": _occ(_FN, "twice", {9, 10})})
+
+
+# names that end like a logical literal without its dots (ntrue, isfalse) next to real .true. / .false. literals
+_LG = ("module lg\n  integer :: ntrue\n  logical :: isfalse\ncontains\n  function foo(x)\n    integer :: x, foo\n    ntrue = ntrue + 1\n"
+       "    ntrue=ntrue+1\n    foo = x + ntrue\n    isfalse = .true.\n    isfalse=.false..or.isfalse\n    if (isfalse) ntrue=0\n"
+       "  end function foo\nend module lg\n")
+PROGRAMS["logical_like_names"] = (_LG, {"ntrue": _occ(_LG, "ntrue", set(range(14))), "isfalse": _occ(_LG, "isfalse", set(range(14)))})
 
 
 def native_references():
